@@ -154,8 +154,8 @@ inductive QReq where
   | gate2 (g : G2) (v w : Int)
   | meas (v : Int)
   | free (v : Int)
-  | eprCreate (remoteOk : Bool) (v : Option Int)
-  | eprRecv (sock remote : Int) (v : Option Int)
+  | eprCreate (remoteOk bad : Bool) (v : Option Int)
+  | eprRecv (sock remote : Int) (bad : Bool) (v : Option Int)
   deriving DecidableEq, Repr
 
 def QReq.vanilla : QReq → Bool
@@ -164,6 +164,7 @@ def QReq.vanilla : QReq → Bool
 inductive QRes where
   | ok (val : Option Int)
   | err          -- a Python exception: the subroutine is aborted with an ErrorMessage
+  | errPending   -- the same, raised while netqasm handled a link-layer response (which therefore stays pending)
   | blocked      -- EPR hand-over postponed by netqasm (polling timer): outside the model
   | envShort     -- the input streams are exhausted
   | unmodelled
@@ -338,20 +339,23 @@ def free (c : CQ) (v : Int) (env : Env) : QOut CQ :=
             out { c1 with node := c1.node.drop t, qlist := aDel c1.qlist (p : Int) }
               { env with outs := rest } [.meas t false o] (.ok none)
 
-/-- `_handle_epr_ok_k_response` (executor.py:1620-1651): map the pair's virtual
-address to physical id `q`.  `none` = an exception, `some none` = postponed -/
-def handOver (c : CQ) (q : Nat) (v : Option Int) : QRes × CQ :=
-  match v, c.um with
-  | some v, some um =>
-    match slotGet um v with
-    | .bad => (.err, c.leak 1)                         -- outside the unit module
-    | .full _ _ => if 0 ≤ v then (.blocked, c.leak 1)  -- `_has_virtual_address`: wait and retry
-                   else (.err, c.leak 1)               -- negative alias: already allocated
-    | .empty i => (.ok none, { c with um := some (um.set i (some q)) })
-  | _, _ => (.err, c.leak 1)                           -- address undefined / no unit module
+/-- `_handle_epr_ok_k_response` (executor.py:1620-1651): map the pair's virtual address to physical id `q`.
+`bad`: the request record at the head of the list is stale, or an earlier response is stuck in the pending
+list — `_get_app_id` raises before anything is mapped. -/
+def handOver (c : CQ) (q : Nat) (bad : Bool) (v : Option Int) : QRes × CQ :=
+  if bad then (.errPending, c.leak 1)
+  else
+    match v, c.um with
+    | some v, some um =>
+      match slotGet um v with
+      | .bad => (.errPending, c.leak 1)                         -- outside the unit module
+      | .full _ _ => if 0 ≤ v then (.blocked, c.leak 1)         -- `_has_virtual_address`: wait and retry
+                     else (.errPending, c.leak 1)               -- negative alias: already allocated
+      | .empty i => (.ok none, { c with um := some (um.set i (some q)) })
+    | _, _ => (.errPending, c.leak 1)                           -- address undefined / no unit module
 
 /-- one pair of `_do_create_epr` (executioner.py:327-337) = `cmd_epr` (376-500), type K -/
-def eprCreate (c : CQ) (remoteOk : Bool) (v : Option Int) (env : Env) : QOut CQ :=
+def eprCreate (c : CQ) (remoteOk bad : Bool) (v : Option Int) (env : Env) : QOut CQ :=
   let q := firstFree c.used
   let c1 := { c with used := q :: c.used }
   if !remoteOk then c1.out env [] .err               -- unknown / own / non-adjacent node: before cmd_new
@@ -370,11 +374,11 @@ def eprCreate (c : CQ) (remoteOk : Bool) (v : Option Int) (env : Env) : QOut CQ 
           if !okS then (c3.leak 2).out env' (ops ++ [.send t2 false]) .err     -- F13: receiver full
           else
             let c4 := { c3 with node := c3.node.drop t2, qlist := aDel c3.qlist (-(1 + (q : Int))) }
-            let (r, c5) := c4.handOver q v
+            let (r, c5) := c4.handOver q bad v
             c5.out env' (ops ++ [.send t2 true]) r
 
 /-- one pair of `_do_recv_epr` (executioner.py:363-368) = `cmd_epr_recv` (732-782), type K -/
-def eprRecv (c : CQ) (sock remote : Int) (v : Option Int) (env : Env) : QOut CQ :=
+def eprRecv (c : CQ) (sock remote : Int) (bad : Bool) (v : Option Int) (env : Env) : QOut CQ :=
   let q := firstFree c.used
   let c1 := { c with used := q :: c.used }
   match c1.node.inbox.find? fun e => decide (e.1 = sock) with
@@ -386,7 +390,7 @@ def eprRecv (c : CQ) (sock remote : Int) (v : Option Int) (env : Env) : QOut CQ 
       let c3 := { c2 with qlist := aSet c2.qlist (q : Int) t }
       if sender ≠ remote then (c3.leak 1).out env [.claim t] .blocked   -- no matching recv request: retried forever
       else
-        let (r, c4) := c3.handOver q v
+        let (r, c4) := c3.handOver q bad v
         c4.out env [.claim t] r
 
 def q (c : CQ) : QReq → Env → QOut CQ
@@ -399,8 +403,8 @@ def q (c : CQ) : QReq → Env → QOut CQ
   | .gate2 g v w, env => c.gate2 g v w env
   | .meas v, env => c.meas v env
   | .free v, env => c.free v env
-  | .eprCreate ok v, env => c.eprCreate ok v env
-  | .eprRecv s r v, env => c.eprRecv s r v env
+  | .eprCreate ok bad v, env => c.eprCreate ok bad v env
+  | .eprRecv s r bad v, env => c.eprRecv s r bad v env
 
 end CQ
 
@@ -527,6 +531,9 @@ structure St (σ : Type) where
   app : Option Nat          -- the active application
   socks : List Int          -- EPR sockets opened on this node (NetworkStack._sockets)
   peers : List Int          -- node ids this node may create entanglement with
+  stale : List (Bool × Int × Int)   -- (create?, remote node, socket): a request record of a finished subroutine
+                                    -- is still at the head of `_epr_create_requests` / `_epr_recv_requests`
+  broken : Bool             -- a link-layer response is stuck in `_pending_epr_responses`
   cl : Cl
   q : σ
 
@@ -576,6 +583,7 @@ def ofQ {σ : Type} (s : St σ) (o : QOut σ) (upd : Option Int → Cl → Cl) :
   match o.res with
   | .ok val => ⟨{ s with q := o.st, cl := upd val s.cl }, o.env, [], o.ops, .next⟩
   | .err => ⟨{ s with q := o.st }, o.env, [], o.ops, .err⟩
+  | .errPending => ⟨{ s with q := o.st }, o.env, [], o.ops, .err⟩
   | .blocked => ⟨{ s with q := o.st }, o.env, [], o.ops, .unmodelled⟩
   | .unmodelled => ⟨{ s with q := o.st }, o.env, [], o.ops, .unmodelled⟩
   | .envShort => ⟨{ s with q := o.st }, o.env, [], o.ops, .envShort⟩
@@ -606,11 +614,19 @@ def eprLoop {σ : Type} (B : Backend σ) (mk : Option Int → QReq) (qarr : Opti
         if info.length ≠ okFields then ⟨{ s with q := o.st }, o.env, [], ops ++ o.ops, .unmodelled⟩
         else
           match arrSetSlice s.cl entA (i * okFields) info with
-          | none => ⟨{ s with q := o.st }, { o.env with infos := rest }, [], ops ++ o.ops, .err⟩
+          | none => ⟨{ s with q := o.st }, { o.env with infos := rest }, [], ops ++ o.ops, .unmodelled⟩   -- error now, then netqasm polls forever
           | some cl' => eprLoop B mk qarr entA n (i + 1) { s with q := o.st, cl := cl' } { o.env with infos := rest } (ops ++ o.ops)
     | .err => ⟨{ s with q := o.st }, o.env, [], ops ++ o.ops, .err⟩
+    | .errPending => ⟨{ s with q := o.st, broken := true }, o.env, [], ops ++ o.ops, .err⟩
     | .envShort => ⟨{ s with q := o.st }, o.env, [], ops ++ o.ops, .envShort⟩
     | _ => ⟨{ s with q := o.st }, o.env, [], ops ++ o.ops, .unmodelled⟩
+
+/-- after the pairs of one request: netqasm pops the request record only when all pairs were delivered
+(executor.py:1587-1595); an aborted request leaves it at the head of its list -/
+def eprDone {σ : Type} (key : Bool × Int × Int) (o : StepOut σ) : StepOut σ :=
+  match o.ctl with
+  | .next => o
+  | _ => { o with st := { o.st with stale := key :: o.st.stale } }
 
 /-- one instruction (executor.py `_execute_command` and the `_instr_*` / `_handle_*` methods) -/
 def instrStep {σ : Type} (B : Backend σ) (s : St σ) (env : Env) : Instr → StepOut σ
@@ -728,7 +744,10 @@ def instrStep {σ : Type} (B : Backend σ) (s : St σ) (env : Env) : Instr → S
             | none => fail s env
             | some qs =>
               if (qs.length : Int) ≠ number then fail s env              -- "Not enough qubit addresses"
-              else eprLoop B (fun v => .eprCreate (s.peers.contains remote) v) (some qs) entA qs.length 0 s env []
+              else
+                let key := (true, remote, sock)
+                eprDone key (eprLoop B (fun v => .eprCreate (s.peers.contains remote) (s.broken || s.stale.contains key) v)
+                  (some qs) entA qs.length 0 s env [])
       | _ => fail s env
     | _, _, _, _ => fail s env
   | .recvEpr r0 r1 r2 r3 =>
@@ -737,8 +756,9 @@ def instrStep {σ : Type} (B : Backend σ) (s : St σ) (env : Env) : Instr → S
       match aGet s.cl.arrays entA with
       | none => fail s env
       | some ent =>
-        eprLoop B (fun v => .eprRecv sock remote v) ((regGet s.cl r2).bind (aGet s.cl.arrays)) entA
-          (ent.length / okFields) 0 s env []
+        let key := (false, remote, sock)
+        eprDone key (eprLoop B (fun v => .eprRecv sock remote (s.broken || s.stale.contains key) v)
+          ((regGet s.cl r2).bind (aGet s.cl.arrays)) entA (ent.length / okFields) 0 s env [])
     | _, _, _ => fail s env
   | .other => ⟨s, env, [], [], .unmodelled⟩
 
@@ -787,6 +807,7 @@ def fromQ {σ : Type} (s : St σ) (o : QOut σ) (okSt : St σ → St σ) (okRepl
   match o.res with
   | .ok _ => ⟨okSt { s with q := o.st }, o.env, okReplies, o.ops, .done⟩
   | .err => ⟨{ s with q := o.st }, o.env, [], o.ops, .error⟩
+  | .errPending => ⟨{ s with q := o.st }, o.env, [], o.ops, .error⟩
   | .envShort => ⟨{ s with q := o.st }, o.env, [], o.ops, .envShort⟩
   | _ => ⟨{ s with q := o.st }, o.env, [], o.ops, .unmodelled⟩
 
@@ -827,6 +848,6 @@ def CQ.fresh (cap : Nat) : CQ :=
   { um := none, used := [], qlist := [], node := ⟨cap, [], 0, []⟩, leaked := 0 }
 
 def St.fresh (cap : Nat) (peers : List Int) : St CQ :=
-  { app := none, socks := [], peers := peers, cl := Cl.empty, q := CQ.fresh cap }
+  { app := none, socks := [], peers := peers, stale := [], broken := false, cl := Cl.empty, q := CQ.fresh cap }
 
 end SqVerif.NqExec
